@@ -42,6 +42,27 @@ func init() {
 		},
 	})
 	register(&Property{
+		ID: "C51",
+		Explanation: "Decides the gate in front of the only code that replaces the binary: (verify-before-install) in DownloadLatestStableRelease the call of extractToFile is reachable only through GPGVerify's ok==true and no-error edges, findHash's success edge and the true edge of bytes.Equal; the buffer whose signature is verified is the buffer findHash reads; the checksum is looked up under the downloaded asset's own name; SHA-256 is computed over the very buffer extractToFile installs; bytes.Equal compares findHash's result with that digest; extractToFile has this single call site and file-system writes in package selfupdate occur only in it (and its platform helper); (signature-check) GPGVerify returns ok only on the success edge of CheckArmoredDetachedSignature, which gets the key ring read from the package variable `key` (never reassigned), the data argument as signed message and sig as signature; findHash returns a hash only for a line whose file-name column equals the requested name, hex-decoded from that line. Not decided: correctness of openpgp/sha256, TLS and the GitHub API, and what extractToFile leaves behind when it fails half-way.",
+		Assumptions: commonAssumptions,
+		Technique:   "static analysis: CFG edge cuts (must-pass-through) + value-origin identity of the verified, hashed and installed buffers + who-may-write enumeration (go/ssa)",
+		AllConfigs:  true,
+		Run: func(c *eng.Ctx) {
+			ruleVerifyBeforeInstall(c)
+			ruleSignatureCheck(c)
+		},
+		Controls: []Control{
+			{Name: "ignore-failed-signature", File: "internal/selfupdate/download.go",
+				Old: "	if !ok {\n		return \"\", errors.New(\"GPG signature verification of the file SHA256SUMS failed\")\n	}\n", New: "	if !ok {\n		printf(\"GPG signature verification of the file SHA256SUMS failed\\n\")\n	}\n", Rule: "verify-before-install"},
+			{Name: "hash-of-suffix-instead-of-downloaded-name", File: "internal/selfupdate/download.go",
+				Old: "	wantHash, err := findHash(sha256sums, downloadFilename)", New: "	wantHash, err := findHash(sha256sums, suffix)", Rule: "verify-before-install"},
+			{Name: "findhash-prefix-match", File: "internal/selfupdate/download.go",
+				Old: "		if data[1] == filename {", New: "		if strings.HasSuffix(data[1], filename) {", Rule: "signature-check"},
+			{Name: "gpg-error-means-ok", File: "internal/selfupdate/verify.go",
+				Old: "	if err != nil {\n		return false, err\n	}\n\n	return true, nil", New: "	if err != nil {\n		return true, nil\n	}\n\n	return true, nil", Rule: "signature-check"},
+		},
+	})
+	register(&Property{
 		ID: "C55",
 		Explanation: "Decides the status plumbing from an unreadable item to the exit code, not which operating-system errors occur: (incomplete-status) the closure installed as Archiver.Error in runBackup clears the captured `success` flag on every path, nothing sets the flag back to true, every return of runBackup that can yield a nil error after Archiver.Snapshot lies behind the success==true edge, ErrInvalidSourceData is returned only after Snapshot succeeded (the snapshot is saved first), and inaccessible targets reported by collectTargets clear the flag without aborting the run; (exit-table) by specialised evaluation of main: with err == ErrInvalidSourceData every path reaches Exit with status 3, with err == nil status 0, with any other non-nil error never 0; the command's error reaches that switch unchanged (overwritten only when nil or ErrOK; the backup command's RunE returns runBackup's result itself); (skip-implies-hook) in every Archiver method, after a source operation (fs.FS / fs.File / toNoder method, save, saveDir, saveTree, nodeFromFileInfo, dirPathToNode, dirToNodeAndEntries) failed, no return with a possibly-nil error is reachable without a call of Archiver.error (directly or through a closure that always calls it); save's error filter turns only os.ErrNotExist into nil (vanished files do not count, as the statement says); treeSaver.save drops a failed item only after its error hook, which is Archiver.Error. Not decided: errors inside the file saver's chunk loop reach the tree saver through the future's result (flow through a channel), and cobra returns RunE's error unchanged.",
 		Assumptions: commonAssumptions,
